@@ -69,6 +69,9 @@ fn one_run<K: Kit>(prop: &'static str, tier: &'static str, idx: usize, sc0: &Sce
     let mut sc = sc0.clone();
     sc.params.seed = Some(seed);
     sc.params.bias = c.bias;
+    // worlds whose point is a long run of rejected goal roots get fewer, longer calls
+    let long = sc.tag.contains("marginally-inside");
+    let c = &DeepCfg { seeds: c.seeds, chunks: if long { 2 } else { c.chunks }, chunk_len: if long { 160 } else { c.chunk_len }, bias: c.bias };
     let info = json!({"scenario_index": idx, "seed": seed, "goal_bias": c.bias, "chunks": c.chunks, "chunk_len": c.chunk_len});
     CURRENT.with(|x| *x.borrow_mut() = Some(info.clone()));
     crate::explore::watch_desc(|| json!({"deep": info, "scenario": sc.tag}).to_string());
